@@ -277,6 +277,12 @@ class PEngine(FullEngine):
                 st.pc.append(Implies(Not(r), ForAll([k], Implies(And(rng, cnd_k), Not(body_k)), patterns=pats)))
                 st.pc.append(Implies(r, And(lo <= W, W < hi, at(phi, W), at(cnd_k, W), at(body_k, W))))
             return PV(BOOL, r)
+        if not isinstance(a, ast.GeneratorExp):
+            v = self.expr(a, st)
+            if self.is_opq(v):                                   # any / all over a library value (a Series of booleans ...): an opaque truth value
+                from .exprs import OpqTruth
+                return PV(BOOL, OpqTruth(self.opq(st, 'fn_' + name, [v]).term))
+            a_val = v
         return super().any_all(c, name, st)
 
 
